@@ -48,6 +48,11 @@ ASSUMPTIONS = [
 
 def _fail(ctx, key, case, what):
     """at most three recorded cases per failing-input class (the shared list is capped), all counted"""
+    inner = case.get('case') if isinstance(case, dict) else None
+    if (isinstance(inner, dict) and any(v == 'contra' for v in (inner.get('esc') or {}).values())
+            and (key.endswith('misclassified') or key.endswith('mixed-class') or key.endswith('another-recipients-reply'))):
+        key = 'c11:classification-not-by-reply-code'
+        what += ' [the reply text carries an enhanced status code of the other class; the reply CODE decides]'
     k = 'oracle-fail:' + key
     if ctx.dist.get(k, 0) < 3:
         ctx.fail(key, case, what)
@@ -154,6 +159,7 @@ class FakeServer(object):
 
     def emit(self, kind, m=0, i=0):
         self.trace.append((kind, m, i))
+        self.cur_key = skey(kind, m, i)
         if self.dead:
             return None
         o = self.outcome(kind, m, i)
@@ -182,7 +188,12 @@ class FakeServer(object):
             lines = ['Hello'] + names
             return ''.join('250%s%s\r\n' % ('-' if j < len(lines) - 1 else ' ', l) for j, l in enumerate(lines)).encode()
         code = CODES.get((kind, o)) or {R2: '250', R3: '354', R4: '450', R5: '550', R500: '500'}[o]
-        return ('%s %s\r\n' % (code, KNAMES[kind])).encode()
+        text = KNAMES[kind]
+        ek = (self.case.get('esc') or {}).get(self.cur_key)
+        if ek and code[0] in '45':
+            digit = code[0] if ek == 'match' else {'4': '5', '5': '4'}[code[0]]
+            text = '%s.%s %s' % (digit, {'4': '2.1', '5': '7.1'}[digit], text)
+        return ('%s %s\r\n' % (code, text)).encode()
 
     # -- idle check (patched wait_read)
     def idle_check(self):
@@ -488,7 +499,19 @@ def model_input(case, conn_index=0):
             CONN[conn], [list(map(int, case['exts'][0])), list(map(int, case['exts'][1]))],
             [[int(bool(msg.get('sender_ok', True))), [[a, int(bool(x))] for a, x in zip(addrs_of(msg), msg['rcpt_ok'])], int(bool(msg.get('eightbit')))]
              for msg in case['msgs']],
-            entries]
+            entries, esc_entries(case, script)]
+
+
+def esc_entries(case, script):
+    """the class digit of the enhanced status code the reply text starts with, per stage"""
+    out = []
+    for k in sorted(case.get('esc') or {}):
+        kind, m, i = parse_skey(k)
+        o = script.get(k, DEFAULT[kind])
+        if o in (R4, R5, R500):
+            d = 4 if o == R4 else 5
+            out.append([kind, m, i, d if case['esc'][k] == 'match' else 9 - d])
+    return out
 
 
 CLS = {0: 'ok', 1: 'perm', 2: 'trans', 3: 'other:KeyError'}
@@ -629,8 +652,10 @@ def oracle_smtp(ctx, case, impl):
         if len(script) == 1 and case.get('conn', 'ok') == 'ok' and not msg.get('eightbit') and not bad_addr and res[0] != 'queued':
             (k, o), = script.items()
             kind, sm, si = parse_skey(k)
-            decisive = kind in (K_BANNER, K_MAIL, K_DATA) or (kind == K_EHLO and o != R500) or (kind == K_EOD and not lmtp)
-            if decisive and (kind in (K_BANNER, K_EHLO) or sm == m) and m == 0:
+            decisive = (kind in (K_BANNER, K_MAIL, K_DATA) or (kind == K_EHLO and o != R500) or (kind == K_EOD and not lmtp)
+                        or (kind == K_AUTH and case['cfg'].get('creds') and case['exts'][0][E_AUTH] and not case['exts'][0][E_STARTTLS])
+                        or (kind == K_STARTTLS and case['cfg'].get('tls_required') and o in (R4, R5, R500)))
+            if decisive and (kind in (K_BANNER, K_EHLO, K_AUTH, K_STARTTLS) or sm == m) and m == 0:
                 want = None
                 if o in (R5, R500):
                     want = 'perm'
@@ -795,6 +820,28 @@ def gen_smtp_cases(quick):
                 for o in ALL_OUT:
                     if o != STALL:
                         yield 'reuse', with_script(b, {skey(K_IDLE, 0): o})
+            # reply texts that start with an enhanced status code: matching the code, or of the other class
+            for ek in ('match', 'contra'):
+                for o in (R4, R5):
+                    for n in (1, 2):
+                        b = base_case(proto, pl, [n])
+                        stages = [(K_BANNER, 0, 0), (K_EHLO, 0, 0), (K_MAIL, 0, 0), (K_DATA, 0, 0)]
+                        stages += [(K_RCPT, 0, i) for i in range(n)]
+                        stages += [(K_EOD, 0, i) for i in range(n)] if lmtp else [(K_EOD, 0, 0)]
+                        for st in stages:
+                            c = with_script(b, {skey(*st): o})
+                            c['esc'] = {skey(*st): ek}
+                            yield 'esc', c
+                        if n == 2:
+                            c = with_script(b, {skey(K_RCPT, 0, 0): o, skey(K_RCPT, 0, 1): (R4 if o == R5 else R5)})
+                            c['esc'] = {skey(K_RCPT, 0, 0): ek, skey(K_RCPT, 0, 1): ek}
+                            yield 'esc', c
+                    b = base_case(proto, pl, [1], adv_auth=1, creds=True)
+                    c = with_script(b, {skey(K_AUTH): o}); c['esc'] = {skey(K_AUTH): ek}
+                    yield 'esc', c
+                    b = base_case(proto, pl, [1], adv_starttls=1, tls_required=True)
+                    c = with_script(b, {skey(K_STARTTLS): o}); c['esc'] = {skey(K_STARTTLS): ek}
+                    yield 'esc', c
             # the same address several times in envelope.recipients
             for pat in ([0, 0, 1], [0, 1, 0], [1, 0, 0], [0, 0, 0], [0, 1, 1], [0, 1, 0, 1], [0, 0, 1, 1], [0, 1, 1, 0]):
                 n = len(pat)
@@ -802,7 +849,7 @@ def gen_smtp_cases(quick):
                 b['msgs'][0]['addrs'] = list(pat)
                 for rv in rcpt_vectors(0, n):
                     yield 'dup', with_script(b, rv)
-                    if lmtp:
+                    if lmtp and (n == 3 or not quick):
                         accepted = [i for i in range(n) if skey(K_RCPT, 0, i) not in rv]
                         if n == 3:
                             evs = itertools.product((R2, R4, R5), repeat=len(accepted))
@@ -813,7 +860,7 @@ def gen_smtp_cases(quick):
                             s2.update({skey(K_EOD, 0, i): o for i, o in zip(accepted, ev) if o != R2})
                             if s2 != rv:
                                 yield 'dup', with_script(b, s2)
-                    else:
+                    elif not lmtp:
                         yield 'dup', with_script(b, dict(rv, **{skey(K_EOD, 0, 0): R5}))
                 for i in range(n):
                     yield 'dup', with_script(b, {skey(K_RCPT, 0, i): R3})
@@ -1147,6 +1194,8 @@ class StubConn(object):
 
 HTTP_HEADERS = [None, '', 'asdf', '250; message="2.0.0 Ok"', '450; message="4.2.0 busy"', '550; message="5.1.1 no"',
                 '550; message="5.1.1 no" command="RCPT"', '450; message="4.0.0 x" command="DATA"', ' 554 ; message="5.0.0 x"',
+                '550; message="4.2.1 mailbox busy"', '450; message="5.7.1 try later"', '451; message="4.7.1 greylisted"',
+                '550; message="4.2.1 busy" command="RCPT"',
                 '600; message="what"', '099; message="what"', '999;', '354; message="go"', '150; message="x"', '55; x', '5500; x']
 HDR_RE = _re.compile(r'^\s*(\d\d\d)\s*;')
 
@@ -1162,7 +1211,15 @@ def http_model_input(down):
     m = HDR_RE.match(h) if h is not None else None
     if not m:
         return [3, down[1], []]
-    return [3, down[1], [int(m.group(1)), int('command' in h)]]
+    return [3, down[1], [int(m.group(1)), int('command' in h), header_esc_digit(h)]]
+
+
+ESC_IN_HDR = _re.compile(r'message\s*=\s*"([245])\.\d{1,3}\.\d{1,3}\s')
+
+
+def header_esc_digit(h):
+    m = ESC_IN_HDR.search(h or '')
+    return int(m.group(1)) if m else 0
 
 
 def run_http(down, n_rcpt=2):
@@ -1229,6 +1286,8 @@ def oracle_http(ctx, down, res):
         want = 'perm' if m.group(1)[0] == '5' else 'trans'
         if f != want:
             key = 'c11:http-reply-header-command' if 'command' in header else 'c11:http-misclassified'
+            if header_esc_digit(header) not in (0, int(m.group(1)[0])):
+                key = 'c11:classification-not-by-reply-code'
             _fail(ctx, key, case, 'reply header %r reported as %s, expected %s' % (header, f, want))
 
 
@@ -1446,13 +1505,16 @@ def run(ctx):
         '(first x second request faults, unsolicited reply while idle), each with PIPELINING on and off, for both client classes driven with a preloaded pool queue; '
         'a random subset and the requeue scenarios again through StaticSmtpRelay/StaticLmtpRelay.attempt. '
         'pipe: real sh child processes, exit status {0,1,75,127,SIGKILL} x 21 output shapes on stdout/stderr x three relay classes x both per_recipient modes, timeouts. '
-        'HTTP: stub connection, 13 status codes x 16 X-Smtp-Reply shapes + refused/silent/garbage/closed. MX: stub resolver, 9 MX answers x 6 A answers x 8 recipient shapes x forced x attempts. '
+        'reply texts with an enhanced status code matching / contradicting the reply code at every stage (SMTP, LMTP per-recipient, HTTP header); '
+        'MX as an object: every 2-attempt sequence over {2 domains} x {dt 0,10,100 s; ttl 60} x 10 resolver scenarios on one MxSmtpRelay, random 3- and 4-attempt sequences; '
+        'HTTP: stub connection, 13 status codes x 20 X-Smtp-Reply shapes + refused/silent/garbage/closed. MX: stub resolver, 9 MX answers x 6 A answers x 8 recipient shapes x forced x attempts. '
         'non-trivial = at least one non-default outcome, several recipients, or a failing downstream')
     cases = run_smtp(ctx)
     run_static_subset(ctx, cases)
     run_pipes(ctx)
     run_https(ctx)
     run_mxs(ctx)
+    run_mx_sequences(ctx)
     ctx.extra['exhaustive'] = True
     ctx.extra['exhaustive_bound'] = ('SMTP/LMTP: the enumerated fault combinations above (%d scripts, all compared on result per recipient and on the command sequence seen by the server); '
                                      'pipe/HTTP/MX: the full products listed in the rule') % len(cases)
@@ -1506,6 +1568,12 @@ def replay(ctx, case):
         print('implementation:', run_http(d))
         if ctx.model:
             print('model         :', decode_mres(ctx.model.call('c11_http', http_model_input(d))))
+    elif kind == 'mxseq':
+        steps = [tuple(x) for x in c['steps']]
+        print('steps (domain, dt, resolver scenario):', steps)
+        print('implementation:', run_mx_sequence(steps))
+        if ctx.model:
+            print('model         :', decode_mxseq(ctx.model.call('c11_mxseq', mxseq_model_input(steps)), steps))
     elif kind == 'mx':
         cc = c['case']
         cc['mx'] = tuple(cc['mx']) if cc['mx'][0] != 'ok' else ('ok', [tuple(r) for r in cc['mx'][1]])
@@ -1515,3 +1583,164 @@ def replay(ctx, case):
         if ctx.model:
             print('model         :', decode_mx(ctx.model.call('c11_mx', mx_model_input(cc)), cc))
     return 0
+
+
+# ----------------------------------------------------------------- MX relay as an object: attempt sequences
+from pycares.errno import ARES_ECONNREFUSED
+
+MX_TTL = 60
+MX_SCEN = {
+    'mx2': (('ok', [(10, 1), (5, 2)]), ('ok', 1)),
+    'mx1': (('ok', [(10, 3)]), ('ok', 1)),
+    'mx-empty': (('ok', []), ('ok', 1)),
+    'servfail': (('fail', ARES_ESERVFAIL), ('ok', 1)),
+    'timeout': (('fail', ARES_ETIMEOUT), ('ok', 1)),
+    'refused': (('fail', ARES_ECONNREFUSED), ('ok', 1)),
+    'a-ok': (('notfound', ARES_ENOTFOUND), ('ok', 1)),
+    'nodata-a-ok': (('notfound', ARES_ENODATA), ('ok', 2)),
+    'nothing': (('notfound', ARES_ENOTFOUND), ('notfound', ARES_ENODATA)),
+    'a-fail': (('notfound', ARES_ENODATA), ('fail', ARES_ESERVFAIL)),
+}
+MX_SCEN_NAMES = sorted(MX_SCEN)
+
+
+class FakeClock(object):
+    def __init__(self, t):
+        self.t = t
+
+    def time(self):
+        return self.t
+
+
+def run_mx_sequence(steps):
+    """steps: [(domain index or None, dt, scenario name)]; one MxSmtpRelay object for all of them"""
+    clock = FakeClock(1000)
+    cur = {}
+    log = []
+
+    class SeqResolver(object):
+        @classmethod
+        def query(cls, name, qtype):
+            log.append((qtype, name))
+            spec = cur['mx'] if qtype == 'MX' else cur['a']
+
+            def fn():
+                if spec[0] == 'ok':
+                    if qtype == 'MX':
+                        return [RData(p, 'mx%d.example' % h, MX_TTL) for p, h in spec[1]]
+                    return [RData(ttl=MX_TTL) for _ in range(spec[1])]
+                raise DNSError(spec[1])
+            return Answer(fn)
+    saved = (mx_mod.DNSResolver, mx_mod.time)
+    mx_mod.DNSResolver, mx_mod.time = SeqResolver, clock
+    out = []
+    try:
+        relay = MxSmtpRelay(context=FakeContext())
+        relay.new_static_relay = lambda dest, port: StubStatic(dest, port)
+        for k, (d, dt, scen) in enumerate(steps):
+            clock.t += dt
+            cur['mx'], cur['a'] = MX_SCEN[scen]
+            del log[:]
+            rcpt = 'nodomain' if d is None else 'user@D%d.example' % d
+            env = Envelope('s@example.com', [rcpt])
+            env.parse(b'From: s@example.com\r\n\r\ntest\r\n')
+            try:
+                v = relay.attempt(env, k)
+                res = ('relay', v[1]) if isinstance(v, tuple) and v[0] == 'relayed-to' else ('all', classify_value(v))
+            except Exception as e:
+                res = ('exc', classify_exc(e))
+            out.append((res, bool(log)))
+    finally:
+        mx_mod.DNSResolver, mx_mod.time = saved
+    return out
+
+
+def mxseq_model_input(steps):
+    t = 1000
+    ins = []
+    for k, (d, dt, scen) in enumerate(steps):
+        t += dt
+        mx, a = MX_SCEN[scen]
+
+        def ans(spec, enc):
+            if spec[0] == 'ok':
+                return [0, enc(spec[1])]
+            return [1] if spec[0] == 'notfound' else [2]
+        ins.append([[] if d is None else [d], t, ans(mx, lambda l: [[p, h] for p, h in l]), ans(a, lambda n: [0] * n), MX_TTL, k])
+    return ins
+
+
+def decode_mxseq(o, steps):
+    out = []
+    for (oc, asked), (d, dt, scen) in zip(o, steps):
+        if oc[0] == 0:
+            r = ('exc', 'perm')
+        elif oc[0] == 1:
+            r = ('exc', 'trans')
+        else:
+            r = ('relay', ('d%d.example' % d) if oc[1] == () else 'mx%d.example' % oc[1][0])
+        out.append((r, bool(asked)))
+    return out
+
+
+def oracle_mxseq(ctx, steps, impl):
+    """each attempt is classified as its OWN resolver answers call for; only successful lookups are
+    remembered, until their TTL"""
+    cache = {}
+    t = 1000
+    for k, ((d, dt, scen), (res, asked)) in enumerate(zip(steps, impl)):
+        t += dt
+        mx, a = MX_SCEN[scen]
+        case = dict(kind='mxseq', steps=[list(x) for x in steps])
+        if d is None:
+            want, want_asked = ('exc', 'perm'), False
+        elif d in cache and t < cache[d][1]:
+            hosts = cache[d][0]
+            want, want_asked = ('relay', hosts[k % len(hosts)]), False
+        else:
+            want_asked = True
+            if mx[0] == 'fail' or (mx[0] == 'notfound' and a[0] == 'fail'):
+                want = ('exc', 'trans')
+            else:
+                if mx[0] == 'ok':
+                    hosts = ['mx%d.example' % h for p, h in sorted(mx[1], key=lambda r: r[0])]
+                elif a[0] == 'ok':
+                    hosts = ['d%d.example' % d] * a[1]
+                else:
+                    hosts = []
+                if hosts:
+                    cache[d] = (hosts, t + MX_TTL)
+                    want = ('relay', hosts[k % len(hosts)])
+                else:
+                    cache.pop(d, None)
+                    want = ('exc', 'perm')
+        if res != want or asked != want_asked:
+            key = 'c11:mx-sequence-misclassified'
+            if want == ('exc', 'trans') and res != want:
+                key = 'c11:mx-resolver-error-not-transient'
+            _fail(ctx, key, case, 'attempt %d (domain %r, resolver scenario %s, t=%d): expected %r (resolver asked: %s), got %r (asked: %s)' % (
+                k, d, scen, t, want, want_asked, res, asked))
+            return
+
+
+def run_mx_sequences(ctx):
+    opts = [(d, dt, sc) for d in (0, 1) for dt in (0, 10, 100) for sc in MX_SCEN_NAMES]
+    seqs = [[a, b] for a in opts for b in opts]
+    seqs += [[(None, 0, 'mx1'), b] for b in opts[:10]] + [[a, (None, 0, 'servfail'), a] for a in opts[:10]]
+    rng = ctx.rng
+    for L, n in ((3, 1000 if ctx.quick else 20000), (4, 500 if ctx.quick else 10000)):
+        for _ in range(n):
+            # mostly one domain, so that the cache matters
+            dom = rng.choice((0, 0, 1))
+            seqs.append([(dom if rng.random() < 0.8 else 1 - dom, rng.choice((0, 10, 10, 100)), rng.choice(MX_SCEN_NAMES))
+                         for _ in range(L)])
+    outs = ctx.model.batch('c11_mxseq', [mxseq_model_input(s) for s in seqs])
+    for steps, o in zip(seqs, outs):
+        impl = run_mx_sequence(steps)
+        mod = decode_mxseq(o, steps)
+        ctx.evaluated(('mxseq', repr(steps)))
+        ctx.count('mxseq:len-%d' % len(steps))
+        if impl != mod:
+            ctx.mismatch('mxseq', dict(steps=[list(x) for x in steps]), impl, mod)
+        oracle_mxseq(ctx, steps, impl)
+    ctx.sample(dict(kind='mxseq', steps=[list(x) for x in seqs[len(seqs) // 2]]))
